@@ -257,7 +257,115 @@ let rec twins ops s =
       | [] -> false
       | o :: r -> let (x, s') = step cfg_fixed o s in if x = RPanic then false else twins r s')
 
+module Str_find = struct
+  let find (s : string) (sub : string) : int =
+    let n = String.length s and m = String.length sub in
+    let rec go i = if i + m > n then raise Not_found else if String.sub s i m = sub then i else go (i + 1) in
+    go 0
+end
+
+(* ---- heap cases ("H ..."): the hash-keyed child-trie store of the in-memory trie
+   (coq/C08/ModelHeap.v); C08_childtries_refine is the theorem behind prop_ok = model_eq here *)
+let parse_hop (s : string) : hop =
+  let b = bytes_of_hex in
+  match String.split_on_char ':' s with
+  | ["cs"; c; k; v] -> HPut (b c, b k, b v) | ["cd"; c; k] -> HClear (b c, b k)
+  | ["ck"; c] -> HDelete (b c) | ["cg"; c; k] -> HGet (b c, b k)
+  | _ -> fail "C08: bad heap op %s" s
+let parse_hobs (t : string) : hobs =
+  let n = String.length t in
+  if t = "ok" then HOk else if t = "err" then HErr else if t = "panic" then HPanic
+  else if t = "none" then HVal None
+  else if n >= 2 && String.sub t 0 2 = "v=" then HVal (Some (bytes_of_hex (String.sub t 2 (n - 2))))
+  else fail "C08: bad heap token %s" t
+let show_hobs = function
+  | HOk -> "ok" | HErr -> "err" | HPanic -> "panic" | HVal None -> "none" | HVal (Some v) -> "v=" ^ hex_of_bytes v
+
+let check_heap ops_toks obs =
+  let ops = List.map parse_hop ops_toks in
+  let otoks = split_ws obs in
+  let is_final t = String.length t > 0 && t.[0] = 'F' in
+  let fin = (match List.rev otoks with t :: _ when is_final t -> Some t | _ -> None) in
+  let xs = List.map parse_hobs (List.filter (fun t -> not (is_final t)) otoks) in
+  (* final: F[main]/11=..../root=r/T=c;c *)
+  let reg, tries, root = (match fin with
+    | None -> ([], [], true)
+    | Some t ->
+      let i = (try Some (Str_find.find t "/T=") with Not_found -> None) in
+      (match i with
+       | None -> fail "C08: heap final without /T= : %s" t
+       | Some i ->
+         let head = String.sub t 0 i and tl = String.sub t (i + 3) (String.length t - i - 3) in
+         let ((_, ch), root) = parse_final head in
+         (ch, (if tl = "" then [] else List.map parse_kv (String.split_on_char ';' tl)), root))) in
+  let panicked = List.exists (fun x -> x = HPanic) xs in
+  let ok fixed = heap_ok fixed ops xs reg tries && (fin <> None || panicked) in
+  let eq = ok true in
+  let prop = heap_prop ops xs reg && root && not panicked in
+  let (ms, st) = hrun true ops hs_empty in
+  (* coverage: a put/clear on a child whose root another child shares; stale entries *)
+  let rec shared ops s = (match ops with
+    | [] -> false
+    | o :: r ->
+      let hit = (match o with
+        | HPut (c, _, _) | HClear (c, _) ->
+          (match hs_lookup s c with LChild h -> shared_root s c h | _ -> false)
+        | _ -> false) in
+      let (x, s') = hstep true o s in
+      hit || (x <> HPanic && shared r s')) in
+  let stale = List.exists (fun h -> not (List.exists (fun (_, m) -> m = h) st.hs_reg)) st.hs_present in
+  let tags = String.concat "," (["heap"] @ (if shared ops hs_empty then ["heap-shared-write"] else [])
+                                @ (if stale then ["heap-stale-entry"] else [])) in
+  let detail = if eq && prop then "" else
+      Printf.sprintf "HEAP MODEL(fixed)=%s reg=%s tries=%d; %s"
+        (String.concat " " (List.map show_hobs ms))
+        (String.concat "/" (List.map (fun (c, m) -> hex_of_bytes c ^ "=" ^ kv_str m) st.hs_reg))
+        (List.length st.hs_present)
+        (let (ps, pst) = hrun false ops hs_empty in
+         (* what the harness can see of the pre-fix store: a dangling root shows as "absent" *)
+         let vis = List.filter (fun (_, h) -> List.mem h pst.hs_present) pst.hs_reg in
+         let same_set a b = List.for_all (fun x -> List.mem x b) a && List.for_all (fun x -> List.mem x a) b in
+         if ps = xs && (panicked || (vis = reg && same_set tries pst.hs_present))
+         then "pre-C08-6-heap-model=observed" else "pre-C08-6-heap-model-differs") in
+  { prop_ok = prop; model_eq = eq; nontrivial = (List.length ops >= 3); finding = "-"; tags; detail }
+
+(* ---- "W exec" / "W init": Instance.ExecuteBlock / InitializeBlock with the hand-assembled guest of
+   props/C08/harness_wazero_test.go.  The storage must have seen  S p:11:01 S p:22:01 R S p:1122:01 C
+   (the leading S being the StartTransaction of ExecuteBlock / InitializeBlock) and be left with
+   exactly one open transaction. *)
+let check_wazero kind obs =
+  let b = bytes_of_hex in
+  let k11 = b "11" and k22 = b "22" and k1122 = b "1122" and v01 = b "01" in
+  let script = [OStart; OPut (k11, v01); OStart; OPut (k22, v01); ORollback; OStart; OPut (k1122, v01); OCommit;
+                OGet k11; OGet k22; OGet k1122] in
+  let sv = function Some v -> "v=" ^ hex_of_bytes v | None -> "none" in
+  let rd = function RVal v -> sv v | x -> show_obs x in
+  let last3 xs = (match List.rev xs with c :: b' :: a :: _ -> [a; b'; c] | _ -> []) in
+  (* expected from the model of TrieState *)
+  let (xs, st) = run cfg_fixed script ts_init in
+  let (c1, st1) = step cfg_fixed OCommit st in
+  let (c2, _) = step cfg_fixed OCommit st1 in
+  let expect reads m0 c1 m1 c2 =
+    String.concat " " (["call=ok"] @
+      List.map2 (fun k r -> "g:" ^ k ^ "=" ^ r) ["11"; "22"; "1122"] reads @
+      ["t:11=" ^ sv (om_get k11 m0); "t:1122=" ^ sv (om_get k1122 m0); "C=" ^ c1;
+       "t:11=" ^ sv (om_get k11 m1); "t:22=" ^ sv (om_get k22 m1); "t:1122=" ^ sv (om_get k1122 m1); "C=" ^ c2]) in
+  let m_model = expect (List.map rd (last3 xs)) st.ts_state.bk_main (show_obs c1) st1.ts_state.bk_main (show_obs c2) in
+  (* expected from the Substrate specification *)
+  let (sx, sst) = srun script ss_init in
+  let (d1, sst1) = sstep OCommit sst in
+  let (d2, _) = sstep OCommit sst1 in
+  let m_spec = expect (List.map rd (last3 sx)) sst.backend.c_main (show_obs d1) sst1.backend.c_main (show_obs d2) in
+  let open_tx = List.length st.ts_txs in
+  { prop_ok = (obs = m_spec); model_eq = (obs = m_model) && open_tx = 1; nontrivial = true; finding = "-";
+    tags = "wazero-" ^ kind ^ ",wazero-open-tx-" ^ string_of_int open_tx;
+    detail = if obs = m_spec && obs = m_model then "" else "WAZERO expected(model)=" ^ m_model ^ " expected(spec)=" ^ m_spec }
+
 let check inp obs =
+  match split_ws inp with
+  | "H" :: rest -> check_heap rest obs
+  | ["W"; kind] -> check_wazero kind obs
+  | _ ->
   let toks = split_ws inp in
   let ops = List.map parse_op toks in
   (* model (fixed and pinned), rendered for diagnostics *)
@@ -289,11 +397,24 @@ let check inp obs =
   let guards = run_guards cfg_fixed ops ts_init in
   let slug = function FTxLimit -> "tx-limit" | FDirectLimitOrder -> "direct-limit-order" in
   let finding = if prop then "-" else (match guards with g :: _ -> slug g | [] -> "-") in
+  (* informational only (the property speaks of reads): do the returned (deleted, allDeleted) of
+     limited clears equal Substrate's (loops, all-removed) of ModelSpec? *)
+  let cnt_tags =
+    let rec go os a b acc = (match os, a, b with
+      | o :: r, x :: xr, y :: yr ->
+        let acc' = (match o, x, y with
+          | (OClearPrefixLimit _ | OCClearPrefixLimit _ | OKillLimit _), RCount (n1, a1), RCount (n2, a2) ->
+            (if n1 = n2 && a1 = a2 then "cnt-eq-substrate" else if n1 = n2 then "cnt-flag-neq-substrate"
+             else "cnt-neq-substrate") :: acc
+          | _ -> acc) in
+        go r xr yr acc'
+      | _ -> acc) in
+    (match view with Some (xs, _) -> List.sort_uniq compare (go ops xs sx []) | None -> []) in
   let kinds = List.sort_uniq compare (List.map op_name toks) in
   let tags = String.concat "," (List.map (fun k -> "op-" ^ k) kinds @
              [Printf.sprintf "depth%d" depth_max] @
              List.sort_uniq compare (List.map (fun g -> "guard-" ^ slug g) guards) @
-             (if twins ops ts_init then ["twin-children"] else []) @
+             (if twins ops ts_init then ["twin-children"] else []) @ cnt_tags @
              List.map (fun t -> "b-" ^ t) (List.sort_uniq compare (branches ops ts_init []))) in
   let detail =
     if prop && eq then "" else begin
@@ -342,6 +463,7 @@ let coq_final ((m, ch), root) =
     (coq_list (fun (c, cm) -> "(" ^ coq_bytes c ^ ", " ^ coq_map cm ^ ")") ch) (coq_bool root)
 
 let coq inp obs =
+  if String.length inp >= 2 && (String.sub inp 0 2 = "H " || String.sub inp 0 2 = "W ") then None else
   match (try Some (parse_view obs) with _ -> None) with
   | None -> None
   | Some (xs, fin) ->
